@@ -302,8 +302,8 @@ func TestVerifControlCover(t *testing.T) {
 					select {
 					case err := <-r.runErr:
 						r.runErr <- err
-					case <-time.After(5 * time.Second):
-						rep.Violation("control/Finish", "the shutdown requested by Stop(expired context) did not complete within 5 s", labels[:si+1])
+					case <-time.After(15 * time.Second):
+						rep.Violation("control/Finish", "the shutdown requested by Stop(expired context) did not complete within 15 s", labels[:si+1])
 						return
 					}
 					continue
